@@ -15,6 +15,7 @@ import (
 	"fmt"
 	"io"
 	"math/big"
+	"reflect"
 	"sync/atomic"
 
 	secp256k1 "gitlab.com/yawning/secp256k1-voi"
@@ -144,8 +145,12 @@ func runSign(d *big.Int, digest []byte, sc mc.Script, oi int) string {
 	var sig []byte
 	var err error
 	rd := mkReader(sc)
-	if pn := lib.Try(func() { sig, err = sk.Sign(rd, dg, o.mk()) }); pn != "" {
+	opv := o.mk()
+	if pn := lib.Try(func() { sig, err = sk.Sign(rd, dg, opv) }); pn != "" {
 		return "Sign panic: " + pn
+	}
+	if !reflect.DeepEqual(opv, o.mk()) {
+		return fmt.Sprintf("Sign modified the caller's options: %+v, passed in as %+v", opv, o.mk())
 	}
 	if !bytes.Equal(dg, digest) {
 		return "digest modified"
